@@ -192,11 +192,14 @@ func (g *c16) pair(x, y proto.Message, cfgs []ecfg, combs [][]ecfg, tags []strin
 	peStrip := [2]bool{proto.Equal(sx, sy), proto.Equal(sy, sx)}
 	var obs []string
 	var jobs []any
+	guard := optGuard(x0) && optGuard(y0) // of the trees as emitted
 	for _, e := range cfgs {
 		v := four(e.real(), x, y, x2, y2)
 		obs = append(obs, vcoq.App("OEq", e.coq(), v.coq()))
 		jobs = append(jobs, map[string]any{"cmp": e.js(), "xy_yx_xx_yy": v})
 		tags = append(tags, e.tag())
+		tags = append(tags, branchTags(e, x2, y2)...)
+		guard = guard && e.guard()
 	}
 	for i, es := range combs {
 		isOr := i%2 == 1
@@ -206,6 +209,7 @@ func (g *c16) pair(x, y proto.Message, cfgs []ecfg, combs [][]ecfg, tags []strin
 		var ej []any
 		for k, e := range es {
 			ms[k] = e.real()
+			guard = guard && e.guard()
 			ec[k] = e.coq()
 			cc[k] = four(ms[k], x, y, x2, y2).coq()
 			ej = append(ej, e.js())
@@ -238,7 +242,20 @@ func (g *c16) pair(x, y proto.Message, cfgs []ecfg, combs [][]ecfg, tags []strin
 	} else {
 		tags = append(tags, "pair:different")
 	}
-	g.o.Add(vcoq.Case{Coq: coq, JSON: js, Key: coq, NonTrivial: nontrivial, Tags: tags})
+	tags = append(tags, guardTag(guard))
+	g.o.Add(vcoq.Case{Coq: kg(guard, coq), JSON: js, Key: coq, NonTrivial: nontrivial, Tags: dedup(tags)})
+}
+
+func dedup(tags []string) []string {
+	seen := map[string]bool{}
+	var out []string
+	for _, t := range tags {
+		if !seen[t] {
+			seen[t] = true
+			out = append(out, t)
+		}
+	}
+	return out
 }
 
 func sameOrNaN(a, b proto.Message) bool {
@@ -388,7 +405,7 @@ func (g *c16) corners() {
 				nb = int32([]int{1, -1, 999999999, -854775808, -854775809}[g.r.Intn(5)])
 			}
 			cfgs := []ecfg{{}, {vs: []vcfg{{kind: "dur", d: 0}}}, {vs: []vcfg{{kind: "dur", d: 1000000000}}},
-				{vs: []vcfg{{kind: "dur", d: math.MaxInt64 - 1}}}}
+				{vs: []vcfg{{kind: "dur", d: math.MaxInt64 - 1}}}, {vs: []vcfg{{kind: "dur", d: math.MaxInt64}}}}
 			g.pair(dur(a, na), dur(b, nb), cfgs, nil, []string{"mut:extreme-durations"}, true)
 		}
 	}
@@ -403,15 +420,27 @@ func (g *c16) corners() {
 	ts := func(s int64, n int32) proto.Message {
 		return &testproto.WellKnown{DefaultTimestamp: &timestamppb.Timestamp{Seconds: s, Nanos: n}}
 	}
-	tsecs := []int64{0, 1, -1, 253402300799, -62135596800, 9223372036, -9223372037, 1 << 59, -(1 << 59), 1 << 62, math.MaxInt64, math.MinInt64}
+	tsecs := []int64{0, 1, -1, 253402300799, -62135596800, 9223372036, -9223372037, 9223372037, 10000000000, 1 << 59, -(1 << 59), 1 << 60, 1<<60 + 1, 1 << 62, math.MaxInt64, math.MinInt64,
+		math.MaxInt64 - 62135596800, math.MaxInt64 - 62135596799}
 	for _, a := range tsecs {
 		for _, b := range tsecs {
 			na := int32([]int{0, 0, 1, 999999999, -1, 1000000000, math.MaxInt32, math.MinInt32}[g.r.Intn(8)])
 			nb := int32([]int{0, 0, 1, 999999999, -1, 1000000000, math.MaxInt32, math.MinInt32}[g.r.Intn(8)])
 			cfgs := []ecfg{{}, {vs: []vcfg{{kind: "time", d: 0}}}, {vs: []vcfg{{kind: "time", d: 1000000000}}},
-				{vs: []vcfg{{kind: "time", d: 3000000000}}}, {vs: []vcfg{{kind: "time", d: math.MaxInt64 - 1}}}}
+				{vs: []vcfg{{kind: "time", d: 3000000000}}}, {vs: []vcfg{{kind: "time", d: math.MaxInt64 - 1}}},
+				{vs: []vcfg{{kind: "time", d: math.MaxInt64}}}}
 			g.pair(ts(a, na), ts(b, nb), cfgs, nil, []string{"mut:extreme-timestamps"}, true)
 		}
+	}
+	// exactly the largest Duration apart, one nanosecond more, one less (Sub saturates / Add gives the time back)
+	edge := [][2]proto.Message{
+		{ts(0, 0), ts(9223372036, 854775807)}, {ts(0, 0), ts(9223372036, 854775806)}, {ts(0, 0), ts(9223372036, 854775808)},
+		{ts(-9223372036, -854775807), ts(0, 0)}, {ts(-9223372036, -854775808), ts(0, 0)}, {ts(-4611686018, -427387904), ts(4611686018, 427387903)},
+		{ts(-4611686018, -427387904), ts(4611686018, 427387904)}, {ts(1, 5), ts(9223372037, 854775812)}, {ts(1, 5), ts(9223372037, 854775813)},
+	}
+	for _, p := range edge {
+		cfgs := []ecfg{{}, {vs: []vcfg{{kind: "time", d: math.MaxInt64}}}, {vs: []vcfg{{kind: "time", d: math.MaxInt64 - 1}}}, {vs: []vcfg{{kind: "time", d: 0}}}}
+		g.pair(p[0], p[1], cfgs, nil, []string{"mut:max-duration-apart"}, true)
 	}
 	// unknown fields: every pair of a fixed family of raw-field sequences (one number repeated, a
 	// second number interleaved), at the root and inside a sub-message
@@ -509,8 +538,12 @@ func (g *c16) stream(e ecfg, seed proto.Message, writes []proto.Message) {
 		wc[i] = coqMsg(w)
 	}
 	coq := vcoq.App("KStream", e.coq(), coqOpt(seed), vcoq.List(wc), vcoq.List(ec))
-	g.o.Add(vcoq.Case{Coq: coq, JSON: js, Key: coq, NonTrivial: len(writes) > 1,
-		Tags: []string{"stream", "stream:" + e.tag(), fmt.Sprintf("stream-suppressed:%d", min(len(writes)+btoi(seed != nil)-len(emitted), 4))}})
+	guard := e.guard() && optGuard(seed)
+	for _, w := range writes {
+		guard = guard && optGuard(w)
+	}
+	g.o.Add(vcoq.Case{Coq: kg(guard, coq), JSON: js, Key: coq, NonTrivial: len(writes) > 1,
+		Tags: []string{"stream", "stream:" + e.tag(), fmt.Sprintf("stream-suppressed:%d", min(len(writes)+btoi(seed != nil)-len(emitted), 4)), guardTag(guard)}})
 }
 
 // collStream: a Collection with an equivalence holding item "a"; the subscriber is seeded with it and
@@ -573,8 +606,13 @@ func (g *c16) collStream(e ecfg, seed proto.Message, writes []proto.Message) {
 		wc[i] = coqMsg(w)
 	}
 	coq := vcoq.App("KCollStream", e.coq(), coqMsg(seed), vcoq.List(wc), vcoq.List(ec))
-	g.o.Add(vcoq.Case{Coq: coq, JSON: js, Key: coq, NonTrivial: len(writes) > 1,
-		Tags: []string{"collection-stream", "collection-stream:" + e.tag()}})
+	guard := e.guard() && optGuard(seed)
+	for _, w := range writes {
+		guard = guard && optGuard(w)
+	}
+	g.o.Add(vcoq.Case{Coq: kg(guard, coq), JSON: js, Key: coq, NonTrivial: len(writes) > 1,
+		Tags: []string{"collection-stream", "collection-stream:" + e.tag(),
+			fmt.Sprintf("collection-stream-suppressed:%d", min(len(writes)+1-len(emitted), 4)), guardTag(guard)}})
 }
 
 func btoi(b bool) int {
@@ -677,5 +715,6 @@ func genC16(o *vcoq.Out, r *vcoq.Rand, tier string) error {
 	g.corners()
 	g.randomPairs(420 * scale)
 	g.streams(260 * scale)
+	g.collections(120 * scale)
 	return nil
 }
